@@ -582,4 +582,28 @@ theorem staleScratch_history_dependent :
     (callI demoISem iStaleScratch (runHistory demoISem iStaleScratch (EState.fresh params) [.call v]) v).1
       ≠ (callI demoISem iStaleScratch (EState.fresh params) v).1 := by decide
 
+/-- **Classic failure 3 (seeded C06-8): a work buffer allocated once instead of per precision.**  The
+matrix Fourier transform keeps its matrices *and* its preallocated intermediate array per working
+precision (`iMft`: accepted, hence history independent by `history_independent` — any sequence of
+calls in any precisions); with the intermediate array allocated only when there is none
+(`iMftAllocOnceOld`) the cell is keyed by nothing while its content depends on the precision: rejected … -/
+theorem mftAllocOnceOld_unsafe : safeInternal iMftAllocOnceOld = false := by decide
+
+theorem mft_safe : safeInternal iMft = true := by decide
+
+/-- … and after a call in precision 1 a call in precision 2 on the same object returns something else
+than a fresh object does (the first product lands in a buffer of the wrong kind). -/
+theorem mftAllocOnceOld_history_dependent :
+    let v : InVal := ⟨5, 1, 0, 0⟩
+    let p1 : Nat → Int := fun _ => 1
+    (callI demoISem iMftAllocOnceOld
+        (runHistory demoISem iMftAllocOnceOld (EState.fresh p1) [.call v, .setParam 0 2]) v).1
+      ≠ (callI demoISem iMftAllocOnceOld (EState.fresh (fun _ => 2)) v).1 := by decide
+
+/-- the correct program on the same history: equal (instance of `history_independent`). -/
+example :
+    let v : InVal := ⟨5, 1, 0, 0⟩
+    (callI demoISem iMft (runHistory demoISem iMft (EState.fresh fun _ => 1) [.call v, .setParam 0 2]) v).1
+      = (callI demoISem iMft (EState.fresh (fun _ => 2)) v).1 := by decide
+
 end HcipyVerif.C06
